@@ -12,7 +12,7 @@ import os
 import vlib
 
 BIG = 10000
-ALL_KINDS = ["cm", "roc", "rocu", "reg", "mreg", "sil", "pear"]
+ALL_KINDS = ["cm", "roc", "rocu", "reg", "regs", "mreg", "sil", "pear"]
 
 # bounded design model (A)
 MODEL = {
@@ -23,12 +23,12 @@ MODEL = {
 }
 INVS = ["InvPermutation", "InvCm", "InvRoc", "InvReg", "InvSil", "InvPear"]
 BIG_INVS = ["WellFormed", "RoundTrip", "AddOk", "SubOk", "MulOk", "MulBigOk", "CmpOk", "CanonOk", "QOk", "QSumOk",
-            "CloseOk", "SqrtOk", "SqrtBracket"]
+            "CloseOk", "CloseTolOk", "Pow2Ok", "SqrtOk", "SqrtBracket"]
 BIG_R = {"quick": 8, "thorough": 60}
 
 # case generator (B): several runs of Gen_Metrics with different bounds (union of the cases)
 GEN_BASE = dict(CmLen=1, CmAlpha=1, CmBinLen=1, RocLen=2, RocDen=1, RegLen=1, RegNeg=0, RegHi=0, SilMinLen=4, SilLen=4,
-                SilPos=1, SilKs="{2}", PearRows=2, PearCols=2, PearHi=1, RegLongLens="{}", RocuLen=1, RocuRank=0, PearWideCols="{}")
+                SilPos=1, SilKs="{2}", PearRows=2, PearCols=2, PearHi=1, RegLongLens="{}", RocuLen=1, RocuRank=0, PearWideCols="{}", RegsLens="{}")
 
 
 def gen_runs(tier):
@@ -36,7 +36,7 @@ def gen_runs(tier):
     q = tier == "quick"
     runs = [
         # "reglong" is a generator tag (the cases are ordinary "reg" cases of length 22..48)
-        (ALL_KINDS + ["reglong", "pearwide"], dict(PearWideCols="{4, 5, 6}",RegLongLens="{22, 23, 24, 26, 28, 30, 32, 36, 40, 44, 47, 48}" if q else
+        (ALL_KINDS + ["reglong", "pearwide"], dict(PearWideCols="{4, 5, 6}", RegsLens="{5, 8, 12}" if q else "{5, 8, 12, 16, 20}",RegLongLens="{22, 23, 24, 26, 28, 30, 32, 36, 40, 44, 47, 48}" if q else
                                        "{22, 23, 24, 25, 26, 28, 30, 32, 34, 36, 38, 40, 42, 44, 46, 47, 48}",
                          RocuLen=3, RocuRank=2 if q else 3,
                          CmLen=3 if q else 4, CmAlpha=3, CmBinLen=5 if q else 6,
@@ -122,6 +122,19 @@ def random_cases(ctx, scale=1.0):
         if mode == "nozero":
             a = [x if x != 0 else 1 for x in a]
         out.append({"kind": "reg", "inp": {"a": a, "b": b, "perm": rperm(r, n)}})
+    fams = [("f32", "2048", 13, 1, 1), ("f32", "2048", 13, 8, 1), ("f32", "65536", 8, 1, 2), ("f32", "65536", 8, 8, 8),
+            ("f32", "1048576", 4, 1, 8), ("f32", "1048576", 4, 8, 64), ("f64", "1000000", 33, 1, 1), ("f64", "1000000", 33, 8, 1),
+            ("f64", "1000000000", 23, 1, 1), ("f64", "1000000000", 23, 8, 1), ("f64", "1099511627776", 13, 1, 1),
+            ("f64", "1099511627776", 13, 8, 1)]
+    for _ in range(cnt(800)):        # offset families (see Gen_Metrics.OffFamilies): random spreads and errors
+        n = r.randint(4, 24)
+        ft, off, g, unit, sc = r.choice(fams)
+        k = [r.randint(0, 12) for _ in range(n)]
+        if len(set(k)) < 2:
+            k[0], k[1] = 0, 12
+        e = [r.choice([0, 0, 1, -1, 2, -3]) for _ in range(n)]
+        out.append({"kind": "regs", "inp": {"a": [sc * (x + y) for x, y in zip(k, e)], "b": [sc * x for x in k], "unit": unit,
+                                            "ft": ft, "off": off, "g": g, "perm": rperm(r, n)}})
     for _ in range(cnt(400)):
         n = r.randint(3, 12)
         t = r.randint(2, 3)
@@ -177,7 +190,7 @@ def nontrivial(c):
     if k == "rocu":  # an opposite-class pair of distinct scores closer than 2^-22
         rk = i["rank"]
         return any(0 < abs(a - b) <= 4 for a, ta in zip(rk, i["truth"]) for b, tb in zip(rk, i["truth"]) if ta != tb)
-    if k in ("reg", "mreg"):
+    if k in ("reg", "regs", "mreg"):
         return i["a"] != i["b"]
     return True
 
@@ -256,7 +269,7 @@ def run_conformance(ctx, binp):
     ctx.rule = ("cases enumerated by TLC (Gen_Metrics): all label-vector pairs over {0,1,2} up to length 3/4 and binary ones up to "
                 "5/6; all score vectors over k/4 (length<=3/4) and k/2 (length<=4/5) with every truth assignment containing both "
                 "classes; ulp-neighbour scores (ranks 0..2/3 mapped to adjacent f32 values at 1/2, 0 and 1, length<=3/4); all lattice vector "
-                "pairs over -2..2 (length<=2) and -1..1/2 (length 3) and formula-built vectors of length 22..48; two-column targets; sorted "
+                "pairs over -2..2 (length<=2) and -1..1/2 (length 3) and formula-built vectors of length 22..48; offset families (truth and prediction shifted by 2^11, 2^16, 2^20 in f32 and 1e6, 1e9, 2^40 in f64, integer and 1/8 spreads, length 5..12/20); two-column targets; sorted "
                 "collinear positions 0..3 with every 2-/3-clustering into clusters of >=2 distinct points (length<=5/6); all "
                 "3x2, 3x3, 4x3 integer matrices with non-constant columns and 6x4..6x6 matrices from a pool of eight columns (both column orders),  [quick/thorough]; thorough adds seeded random longer "
                 "inputs (length<=40). Each case is run through every calling form (arrays, views, datasets), label type "
